@@ -121,7 +121,7 @@ pub fn make_case(seed: u64, tier: Tier) -> VrpMapCase {
         node_size: p.usize(1, 4),
         elite_size: p.usize(1, 4),
         initial_size: p.usize(4, 8),
-        selection_size: p.usize(1, 6),
+        selection_size: p.usize(2, 6), // (Rosomaxa::new rejects a selection size below two)
         spread: *p.pick(&[0.25, 0.5, 0.75, 0.9]),
         distribution: *p.pick(&[0.25, 0.5, 0.75, 0.9]),
         rebalance_memory: *p.pick(&[2usize, 10, 100, 500]),
